@@ -185,6 +185,17 @@ def seeds(n):
     add(("and-c-eq-x", ["And", ["eq", c0, x], ["ne", c1, x]]))
     add(("and-ult-eq", ["And", ["ult", x, c0], ["eq", x, c1]]))
     add(("and-b-b", ["And", B, B]))
+    # equalities / disequalities over one variable mixed with non-constant operands and with one-argument conjuncts
+    add(("and-eqc-ney", ["And", ["eq", x, c0], ["ne", x, y]]))
+    add(("and-ney-eqc", ["And", ["ne", x, y], ["eq", x, c0]]))
+    add(("and-eqc-ney1", ["And", ["eq", x, c0], ["ne", x, ["add", y, L(1, n)]]]))
+    add(("and-eqc-nec-ney", ["And", ["eq", x, c0], ["ne", x, c1], ["ne", x, y]]))
+    add(("and-nec-nec-b", ["And", ["ne", x, c0], ["ne", x, c1], B]))
+    add(("and-eqc-nec-notb", ["And", ["eq", x, c0], ["ne", x, c1], ["Not", B]]))
+    add(("and-ney-nec-b", ["And", ["ne", x, y], ["ne", x, c0], B]))
+    add(("and-and-nec-nec-b", ["And", ["And", ["ne", x, c0], ["ne", x, c1]], B]))
+    add(("or-eqc-eqy", ["Or", ["eq", x, c0], ["eq", x, y]]))
+    add(("or-nec-nec-b", ["Or", ["ne", x, c0], ["ne", x, c1], B]))
     add(("band-b-b2", ["band", B, B2]))
     add(("bor-b-b2", ["bor", B, B2]))
     add(("or-true", ["Or", cmp1, ["boolv", True]]))
